@@ -1175,6 +1175,10 @@ def gen_C17(rng, n):
                     out.append("frm.id_%s.%s 5 %s %s %d 0" % (op, ty, hx(i), hx(c), p))
     # K1: integer forms of div_rounded with n > 18 disagree with the Decimal form
     out.append("frm.di_divr.i32 5 1 0 3 19")
+    # the integer-operand bodies against the model (same generators as C01-C04, C08, C10)
+    for g in (gen_C01, gen_C02, gen_C03, gen_C04, gen_C08, gen_C10):
+        ls = [l for l in g(rng, 1500) if l.startswith(("di.", "id.", "ii."))]
+        out += ls[:600]
     while len(out) < n:
         shape = rng.choice(("dd", "di", "di", "id", "id", "ii"))
         ty = rng.choice(TYNAMES)
